@@ -23,6 +23,9 @@ type memProg struct {
 	Pre     []string   `json:"pre"`     // steps made one after the other before the threads start
 	Threads [][]string `json:"threads"` // per thread: "m0" "m1" (Memoize of key 0/1), "adv<d>"
 	Fail    []int      `json:"fail"`    // execution numbers (1-based) that return an error
+	FailIt  []int      `json:"failit"`  // ... that return an error TOGETHER WITH an item
+	// steps: "m0" "m1" Memoize of key 0/1; "adv<d>" clock jump; "sweep" = Cache.DeleteExpired(), what the
+	// background cleanup calls on every tick (the cleanup goroutine itself is not a model thread)
 }
 
 type memSched struct {
@@ -51,9 +54,12 @@ func memRun(p memProg, run func(bodies []func()) *vsync.Result) ([]tt.Op, error)
 		pool.Set(fmt.Sprint(e), 100+e, cache.NoExpiration)
 		items[e], _ = pool.Get(fmt.Sprint(e))
 	}
-	fails := map[int]bool{}
+	fails, failIt := map[int]bool{}, map[int]bool{}
 	for _, e := range p.Fail {
 		fails[e] = true
+	}
+	for _, e := range p.FailIt {
+		failIt[e] = true
 	}
 	nexec := 0
 	var bodies []func()
@@ -62,6 +68,11 @@ func memRun(p memProg, run func(bodies []func()) *vsync.Result) ([]tt.Op, error)
 		id, ops := ti, ops // the prefix runs as thread 0, outside the scheduler
 		body := func() {
 			for _, o := range ops {
+				if o == "sweep" {
+					m.Cache.DeleteExpired()
+					ev = append(ev, op("sweep"))
+					continue
+				}
 				if o[0] == 'a' {
 					var d int
 					fmt.Sscanf(o, "adv%d", &d)
@@ -82,6 +93,10 @@ func memRun(p memProg, run func(bodies []func()) *vsync.Result) ([]tt.Op, error)
 					}
 					ev = append(ev, op("fnstart", th, k, e))
 					vsync.Point() // the computation takes a while: anything may happen meanwhile
+					if failIt[e] && e <= 8 {
+						ev = append(ev, op("fnend", e, 0, 0))
+						return items[e], errMemo // an error is an error, whatever comes with it
+					}
 					if fails[e] || e > 8 {
 						ev = append(ev, op("fnend", e, 0, 0))
 						return nil, errMemo
@@ -125,6 +140,9 @@ func memRun(p memProg, run func(bodies []func()) *vsync.Result) ([]tt.Op, error)
 	if p.Fail == nil {
 		p.Fail = []int{}
 	}
+	if p.FailIt == nil {
+		p.FailIt = []int{}
+	}
 	end.X = memSched{Kind: "sched", Prog: p, Choices: append([]int{}, res.Choices...)}
 	return append(ev, end), nil
 }
@@ -153,6 +171,15 @@ func memPrograms(full bool) []memProg {
 				out = append(out, memProg{Exp: 5, Pre: pre, Threads: th, Fail: f})
 			}
 		}
+	}
+	// an execution that fails but hands an item back with the error; a memoizer whose entries never
+	// expire, with background cleanup, whose tick falls into the sequential prefix
+	for _, th := range [][][]string{{{"m0"}, {"m0"}}, {{"m0", "m0"}, {"m0"}}, {{"m0", "m0"}, {"m1"}}} {
+		out = append(out, memProg{Exp: 5, Threads: th, FailIt: []int{1}})
+		out = append(out, memProg{Exp: 0, Threads: th, FailIt: []int{1}})
+		out = append(out, memProg{Exp: 0, Pre: []string{"m0", "adv7", "sweep"}, Threads: th})
+		out = append(out, memProg{Exp: 5, Pre: []string{"m0", "adv3", "sweep", "m1", "adv3", "sweep"}, Threads: th})
+		out = append(out, memProg{Exp: 5, Pre: []string{"m0"}, Threads: append([][]string{{"adv3", "sweep"}}, th...)})
 	}
 	fails := [][]int{{}, {1}, {2}, {1, 2}}
 	for _, exp := range []int{0, 5} {
